@@ -137,6 +137,25 @@ macro_rules! comp {
     };
 }
 
+/// The same without a destructor (plain-old-data component types, `needs_drop::<T>() == false`).
+macro_rules! comp_pod {
+    ($name:ident, $kind:expr, $storage:ty, $tracked:expr, $($extra:tt)*) => {
+        #[derive(Default, Debug, Clone, Copy)]
+        pub struct $name(pub i64);
+        impl Component for $name {
+            type Storage = $storage;
+        }
+        impl Comp for $name {
+            const KIND: usize = $kind;
+            const TRACKED: u8 = $tracked;
+            fn new(v: i64) -> Self { $name(v) }
+            fn val(&self) -> i64 { self.0 }
+            fn set(&mut self, v: i64) { self.0 = v; }
+            $($extra)*
+        }
+    };
+}
+
 fn mask_ids<T: Comp>(s: &ReadStorage<T>) -> Vec<u32> {
     use hibitset::BitSetLike;
     s.mask().iter().collect()
@@ -212,6 +231,36 @@ comp!(CDvec, 2, DefaultVecStorage<Self>, 0,
     }
     shared_rjoin_fn!();
 );
+comp_pod!(CDenseP, 1, DenseVecStorage<Self>, 0,
+    fn slice_view(s: &ReadStorage<Self>) -> String {
+        let mut v: Vec<i64> = s.as_slice().iter().map(|c| c.0).collect();
+        v.sort();
+        let mut out = String::from("slice dense");
+        for x in v { write!(out, " {}", x).unwrap(); }
+        out
+    }
+    shared_rjoin_fn!();
+);
+comp_pod!(CDvecP, 2, DefaultVecStorage<Self>, 0,
+    fn slice_view(s: &ReadStorage<Self>) -> String {
+        let sl = s.as_slice();
+        let ids = mask_ids(s);
+        let mut nd = 0usize;
+        let mut it = ids.iter().peekable();
+        for (i, c) in sl.iter().enumerate() {
+            if it.peek().map(|&&x| x as usize == i).unwrap_or(false) { it.next(); } else if c.0 != 0 { nd += 1; }
+        }
+        let mut out = format!("slice dflt {} {}", sl.len(), nd);
+        for i in ids {
+            match sl.get(i as usize) {
+                Some(c) => write!(out, " {}:{}", i, c.0).unwrap(),
+                None => write!(out, " {}:-", i).unwrap(),
+            }
+        }
+        out
+    }
+    shared_rjoin_fn!();
+);
 comp!(CHash, 3, HashMapStorage<Self>, 0, shared_rjoin_fn!(););
 comp!(CBTree, 4, BTreeStorage<Self>, 0, shared_rjoin_fn!(););
 comp!(CFVec, 6, FlaggedStorage<Self, VecStorage<Self>>, 1, tracked_fns!(); shared_rjoin_fn!(););
@@ -263,6 +312,13 @@ pub fn zst6() -> bool {
     static Z: std::sync::OnceLock<bool> = std::sync::OnceLock::new();
     *Z.get_or_init(|| std::env::var("VH_ZST6").map(|v| v == "1").unwrap_or(false))
 }
+/// `VH_POD=1`: kinds 1 (`DenseVecStorage`) and 2 (`DefaultVecStorage`) hold component types WITHOUT a destructor
+/// (`Copy` data): what a storage reports must not depend on whether the component type needs dropping (C04).
+/// (No ledger in these runs: nothing announces the destruction of such a value.)
+pub fn pod() -> bool {
+    static Z: std::sync::OnceLock<bool> = std::sync::OnceLock::new();
+    *Z.get_or_init(|| std::env::var("VH_POD").map(|v| v == "1").unwrap_or(false))
+}
 pub fn is_null_kind(k: usize) -> bool { k == 5 || (k == 6 && zst6()) }
 
 #[derive(Debug, Default)]
@@ -289,8 +345,8 @@ macro_rules! with_kind {
     ($k:expr, $T:ident => $body:expr) => {
         match $k {
             0 => { type $T = CVec; $body }
-            1 => { type $T = CDense; $body }
-            2 => { type $T = CDvec; $body }
+            1 => { if pod() { type $T = CDenseP; $body } else { type $T = CDense; $body } }
+            2 => { if pod() { type $T = CDvecP; $body } else { type $T = CDvec; $body } }
             3 => { type $T = CHash; $body }
             4 => { type $T = CBTree; $body }
             5 => { type $T = CNull; $body }
@@ -370,6 +426,10 @@ pub enum Op {
     /// `lget` / `lgetmut`: the same look-up through a lending join of the one storage,
     /// `(&st).lend_join().get(e, &entities)` / `(&mut st).lend_join().get(e, &entities)` (`JoinLendIter::get`): same model ops.
     Lend(Box<Op>),
+    /// `ldrain2 k @h`: `st.drain().lend_join()`, then `get(e, &entities)` TWICE for the same entity. The first look-up is a
+    /// removal (model op `rem`); the component has been moved out, so the second one must not produce it again (the
+    /// crate panics: "Tried to access same index twice"). Result `<first> / <second>`, second = `panic` | `none` | `some v`.
+    LendDrain2(usize, usize),
     /// Queues a lazy action that panics (outside the model; always followed by the case's final `maintain`, whose unwind the
     /// harness catches). What happens in this world afterwards is not specified — the point is that OTHER worlds of the
     /// process must behave as if it had not happened (C20).
@@ -471,6 +531,7 @@ pub fn show_op(op: &Op) -> String {
         Op::Fault(n) => write!(s, "fault {}", n).unwrap(),
         Op::Generic(inner) => { s.push('g'); s.push_str(&show_op(inner)); }
         Op::Lend(inner) => { s.push('l'); s.push_str(&show_op(inner)); }
+        Op::LendDrain2(k, h) => write!(s, "ldrain2 {} @{}", k, h).unwrap(),
         Op::EntryFar(k, v) => write!(s, "entry_far {} {}", k, v).unwrap(),
         Op::LazyPanic => s.push_str("lazy_panic"),
         Op::LazyProbe => s.push_str("lazy_probe"),
@@ -585,6 +646,7 @@ pub fn parse_ops(ts: &[&str]) -> Option<Op> {
             v.extend_from_slice(rest);
             Op::Lend(Box::new(parse_ops(&v)?))
         }
+        ["ldrain2", k, h] => Op::LendDrain2(k.parse().ok()?, slot(h)?),
         ["entry_far", k, v] => Op::EntryFar(k.parse().ok()?, v.parse().ok()?),
         ["lazy_panic"] => Op::LazyPanic,
         ["lazy_probe"] => Op::LazyProbe,
@@ -1072,6 +1134,25 @@ fn exec_inner(world: &mut World, ctx: &Shared, op: &Op) -> String {
             let r = catch_unwind(AssertUnwindSafe(|| world.maintain()));
             if r.is_err() { "panic".into() } else if flag.load(std::sync::atomic::Ordering::SeqCst) { "ran".into() } else { "notrun".into() }
         }
+        Op::LendDrain2(k, h) => {
+            if !is_reg(ctx, *k) { return "nostore".into(); }
+            let e = match resolve(ctx, *h) { Some(e) => e, None => return "skip".into() };
+            with_kind!(*k, T => {
+                let mut st = world.write_storage::<T>();
+                let ents = world.entities();
+                let mut it = st.drain().lend_join();
+                let show = |c: Option<T>| match c {
+                    Some(old) => { let s = format!("some {}", old.val()); log_pause(|| drop(old)); s }
+                    None => "none".to_string(),
+                };
+                let first = show(it.get(e, &ents));
+                let second = match catch_unwind(AssertUnwindSafe(|| it.get(e, &ents))) {
+                    Ok(c) => show(c),
+                    Err(_) => "panic".to_string(),
+                };
+                format!("{} / {}", first, second)
+            })
+        }
         Op::LazyFlag => {
             FLAGS_Q.with(|c| c.set(c.get() + 1));
             world.read_resource::<LazyUpdate>().exec(|_| FLAGS_RAN.with(|c| c.set(c.get() + 1)));
@@ -1317,6 +1398,8 @@ fn gen_simple_store_op(rng: &mut Rng, p: &StoreProfile, nlog: &mut usize, val: &
     if matches!(op, Op::Get(..) | Op::GetMut { .. } | Op::Ins(..) | Op::Rem(..)) && rng.chance(1, 5) {
         return Op::Generic(Box::new(op));
     }
+    // ... a quarter of the remaining removals as the first of two look-ups of a draining lending join
+    if let Op::Rem(k, h) = op { if rng.chance(1, 4) { return Op::LendDrain2(k, h); } }
     // ... and a sixth of the remaining look-ups through a lending join of the storage (`JoinLendIter::get`)
     if matches!(op, Op::Get(..) | Op::GetMut { .. }) && rng.chance(1, 6) {
         return Op::Lend(Box::new(op));
@@ -1408,7 +1491,7 @@ pub fn gen_store_script(rng: &mut Rng, len: usize, p: &StoreProfile) -> Vec<Op> 
     }
     if p.far_apart {
         // occupy far-apart indices: create many, keep a few (63, 64, 4095, 4096, …), delete none
-        let n = *rng.pick(&[70usize, 70, 70, 4100]);
+        let n = *rng.pick(&[70usize, 70, 70, 70, 70, 70, 70, 4100]);
         ops.push(Op::CreateIter { atomic: false, n });
         nlog += n;
     }
@@ -1451,6 +1534,22 @@ pub fn gen_store_script(rng: &mut Rng, len: usize, p: &StoreProfile) -> Vec<Op> 
             }
         }
         ops.push(op);
+    }
+    if p.lazy && !p.faults && rng.chance(1, 10) {
+        // a long chain of lazily queued scripts, each of which queues the next one (40–70 links): all of them run, in
+        // order, inside ONE maintain
+        let depth = rng.range(40, 70) as usize;
+        let k = *rng.pick(&p.kinds);
+        let mut script: Vec<Op> = vec![Op::Has(k, pick_slot(rng, nlog))];
+        for d in 0..depth {
+            let mut outer: Vec<Op> = Vec::new();
+            if d % 7 == 0 { val += 1; outer.push(Op::LazyIns(k, pick_slot(rng, nlog), if is_null_kind(k) { 0 } else { val })); }
+            else { outer.push(Op::Has(k, pick_slot(rng, nlog))); }
+            outer.push(Op::LazyExec(script));
+            script = outer;
+        }
+        ops.push(Op::LazyExec(script));
+        ops.push(Op::Maintain);
     }
     if p.lazy && !p.faults && !p.drop_world && rng.chance(1, 12) {
         // a panicking lazy action ends the case (nothing after the final maintain is compared)
